@@ -66,6 +66,7 @@ class Obl:
         self.path = path
         self.note = note
         self.expect_sat = False      # covers / must-fail twins
+        self.parts = None            # batched obligation: [(name, cond)]
         self.inputs = None           # name -> V  (unit parameters, for replay)
         self.verdict = None
 
